@@ -9,6 +9,8 @@
 #include <thread>
 #include <vector>
 
+#include "utils/VerifHooks.h"
+
 class WorkerQueue {
   std::mutex mutex;
   std::deque<std::function<void()>> q;
@@ -80,11 +82,15 @@ private:
       if (queue.empty())
         continue;
       auto task = queue.pop();
+      LIBCSD_VERIF_POINT(PT_WORKER_POP, worker_id, 0);
       ul.unlock();
       queue_cv.notify_all();
+      LIBCSD_VERIF_POINT(PT_WORKER_TASK_BEGIN, worker_id, 0);
       task();
+      LIBCSD_VERIF_POINT(PT_WORKER_TASK_END, worker_id, 0);
     }
     queue_cv.notify_all();
+    LIBCSD_VERIF_POINT(PT_WORKER_EXIT, worker_id, 0);
   }
 };
 
@@ -105,7 +111,9 @@ public:
 
   void add_task(std::function<void()> &&task) {
     queue.add_task(task);
+    LIBCSD_VERIF_POINT(PT_POOL_ENQUEUED, 0, 0);
     queue_cv.notify_all();
+    LIBCSD_VERIF_POINT(PT_POOL_NOTIFIED, 0, 0);
   }
 
   void wait_workers() {
@@ -116,7 +124,9 @@ public:
   void stop_all_workers() {
     for (auto &w : workers)
       w->stop();
+    LIBCSD_VERIF_POINT(PT_POOL_STOP_SET, 0, 0);
     queue_cv.notify_all();
+    LIBCSD_VERIF_POINT(PT_POOL_STOP_DONE, 0, 0);
   }
 
   size_t workers_size() const { return workers.size(); }
